@@ -5,9 +5,13 @@
 package main
 
 import (
+	"context"
 	"encoding/hex"
+	"encoding/json"
 	"fmt"
 	"math"
+	"os"
+	"os/exec"
 	"regexp"
 	"runtime"
 	"sort"
@@ -37,10 +41,11 @@ type op struct {
 }
 
 type hist struct {
-	Kind    string `json:"kind,omitempty"` // "" = op history, "stress" = concurrent SetPhase stress
-	Number  int64  `json:"number"`
-	Parties int    `json:"parties"`
-	Ops     []op   `json:"ops"`
+	Kind    string   `json:"kind,omitempty"`   // "" = op history, "stress" = concurrent stress
+	Stress  []string `json:"stress,omitempty"` // stress: the operations released together
+	Number  int64    `json:"number"`
+	Parties int      `json:"parties"`
+	Ops     []op     `json:"ops"`
 }
 
 var (
@@ -484,65 +489,202 @@ func genHist(r *vh.Rand) hist {
 
 func key(h hist) string { return fmt.Sprintf("%d|%d|%v", h.Number, h.Parties, h.Ops) }
 
-// ------------------------------------------------------------------ concurrent setPhase stress (thorough)
+// ------------------------------------------------------------------ concurrent stress (child process)
 
-// stressSetPhase runs SetPhase(Share) and SetPhase(Verify) at the same time on fresh rounds and
-// reports a trial in which both returned and the phase is not Share (the later, smaller store won).
-func stressSetPhase(d time.Duration) (trials int, lost int) {
-	// two long-lived workers released together by a spinning barrier, so that their load/store
-	// pairs overlap as often as possible
+// The stress runs in a child process: an operation that never returns (a spinning or blocked
+// goroutine cannot be stopped from inside) is observed by the child's watchdog, reported, and
+// the process exits; the parent also kills the child when it overruns.
+
+var stressMixes = [][]string{
+	{"setphase:3", "setphase:1"},
+	{"notarized", "setphase:1"},
+	{"notarized", "setphase:2", "setphase:1"},
+	{"setphase:3", "setphase:2", "setphase:1"},
+	{"notarized", "setphase:4", "setphase:2"},
+}
+
+type stressResult struct {
+	Trials  int      `json:"trials"`
+	Lost    int      `json:"lost"`               // trials that ended below the greatest requested phase
+	LostOps []string `json:"lost_ops,omitempty"` // the op set of the first such trial
+	Held    int      `json:"held"`               // trials after which the round mutex was left locked
+	HeldOps []string `json:"held_ops,omitempty"`
+	Hang    bool     `json:"hang"` // an operation did not return within the watchdog time
+	HangOps []string `json:"hang_ops,omitempty"`
+	HangAt  int      `json:"hang_at,omitempty"`
+}
+
+func phaseOf(op string) round.Phase {
+	if op == "notarized" {
+		return round.Share
+	}
+	var p int
+	fmt.Sscanf(op, "setphase:%d", &p)
+	return round.Phase(p)
+}
+
+// stressChild runs in the child process and prints one JSON line.
+func stressChild(d time.Duration, mixes [][]string) {
 	var (
-		cur   atomic.Pointer[round.Round]
-		gen   atomic.Int64
-		ready atomic.Int64
-		fin   atomic.Int64
-		stop  atomic.Bool
-		wg    sync.WaitGroup
+		res      stressResult
+		progress atomic.Int64
+		curMix   atomic.Pointer[[]string]
+		out      sync.Mutex
 	)
-	worker := func(ph round.Phase) {
-		defer wg.Done()
-		runtime.LockOSThread()
-		seen := int64(0)
+	emit := func() {
+		out.Lock()
+		b, _ := json.Marshal(res)
+		fmt.Println(string(b))
+		os.Exit(0)
+	}
+	// watchdog: no finished trial for 3 s = some operation of the current trial does not return
+	go func() {
+		last, since := int64(-1), time.Now()
 		for {
-			for gen.Load() == seen {
-				if stop.Load() {
-					return
+			time.Sleep(50 * time.Millisecond)
+			if p := progress.Load(); p != last {
+				last, since = p, time.Now()
+				continue
+			}
+			if time.Since(since) > 3*time.Second {
+				res.Hang = true
+				if m := curMix.Load(); m != nil {
+					res.HangOps = *m
+				}
+				res.HangAt = int(last)
+				emit()
+			}
+		}
+	}()
+	per := d / time.Duration(len(mixes))
+	for mi := range mixes {
+		mix := mixes[mi]
+		curMix.Store(&mix)
+		want := round.Phase(0)
+		for _, op := range mix {
+			if p := phaseOf(op); p > want {
+				want = p
+			}
+		}
+		var (
+			cur   atomic.Pointer[round.Round]
+			blk   atomic.Pointer[block.Block]
+			gen   atomic.Int64
+			ready atomic.Int64
+			fin   atomic.Int64
+			stop  atomic.Bool
+		)
+		n := int64(len(mix))
+		for _, op := range mix {
+			op := op
+			go func() {
+				runtime.LockOSThread()
+				seen := int64(0)
+				for {
+					for gen.Load() == seen {
+						if stop.Load() {
+							return
+						}
+					}
+					seen = gen.Load()
+					r := cur.Load()
+					b := blk.Load()
+					ready.Add(1)
+					for ready.Load() < n { // all start together
+					}
+					if op == "notarized" {
+						r.AddNotarizedBlock(b)
+					} else {
+						r.SetPhase(phaseOf(op))
+					}
+					fin.Add(1)
+				}
+			}()
+		}
+		end := time.Now().Add(per)
+		for time.Now().Before(end) {
+			for k := 0; k < 500; k++ {
+				r := round.NewRound(3)
+				b := block.NewBlock("", 3)
+				b.Hash = fmt.Sprintf("%064x", res.Trials+1)
+				cur.Store(r)
+				blk.Store(b)
+				ready.Store(0)
+				fin.Store(0)
+				gen.Add(1)
+				for fin.Load() < n {
+				}
+				res.Trials++
+				progress.Add(1)
+				if r.GetPhase() != want {
+					if res.Lost == 0 {
+						res.LostOps = mix
+					}
+					res.Lost++
+				}
+				if !r.VerifMutexFree() {
+					if res.Held == 0 {
+						res.HeldOps = mix
+					}
+					res.Held++
 				}
 			}
-			seen = gen.Load()
-			r := cur.Load()
-			ready.Add(1)
-			for ready.Load() < 2 {
-			}
-			r.SetPhase(ph)
-			fin.Add(1)
 		}
+		stop.Store(true)
 	}
-	wg.Add(2)
-	go worker(round.Share)
-	go worker(round.Verify)
-	end := time.Now().Add(d)
-	for time.Now().Before(end) {
-		for k := 0; k < 5000; k++ {
-			r := round.NewRound(3)
-			cur.Store(r)
-			ready.Store(0)
-			fin.Store(0)
-			gen.Add(1)
-			for fin.Load() < 2 {
-			}
-			trials++
-			if r.GetPhase() != round.Share {
-				lost++
-			}
-		}
+	emit()
+}
+
+// stress starts the child and reads its result; a child that overruns is killed.
+func stress(d time.Duration, only []string) stressResult {
+	ctx, cancel := context.WithTimeout(context.Background(), d+10*time.Second)
+	defer cancel()
+	cmd := exec.CommandContext(ctx, os.Args[0])
+	cmd.Env = append(os.Environ(), fmt.Sprintf("VERIF_ROUNDSM_STRESS=%d", d.Milliseconds()))
+	if len(only) > 0 {
+		cmd.Env = append(cmd.Env, "VERIF_ROUNDSM_STRESS_OPS="+strings.Join(only, ","))
 	}
-	stop.Store(true)
-	wg.Wait()
-	return
+	outb, err := cmd.Output()
+	var res stressResult
+	lines := strings.Split(strings.TrimSpace(string(outb)), "\n")
+	if jerr := json.Unmarshal([]byte(lines[len(lines)-1]), &res); jerr != nil || (err != nil && !res.Hang && res.Trials == 0) {
+		// no usable result: the child was killed or died; that is an operation that did not return
+		return stressResult{Hang: true, HangOps: only}
+	}
+	return res
+}
+
+func reportStress(rep *vh.Report, res stressResult) {
+	rep.Note("concurrent stress in a child process (SetPhase calls and AddNotarizedBlock released together on fresh rounds): %d trials, %d ended below the greatest requested phase, %d left the mutex locked, hang=%v", res.Trials, res.Lost, res.Held, res.Hang)
+	rep.CountN("stress-trials", res.Trials)
+	if res.Hang {
+		rep.Violate("C37:operation-does-not-return",
+			fmt.Sprintf("concurrent %v on a fresh round: an operation did not return within 3 s (after %d finished trials)", res.HangOps, res.HangAt),
+			hist{Kind: "stress", Stress: res.HangOps})
+	}
+	if res.Lost > 0 {
+		rep.Violate("C37:phase-lost-update",
+			fmt.Sprintf("concurrent %v all returned and the phase is below the greatest requested phase in %d of %d trials", res.LostOps, res.Lost, res.Trials),
+			hist{Kind: "stress", Stress: res.LostOps})
+	}
+	if res.Held > 0 {
+		rep.Violate("C37:lock-left-held-after-concurrent-ops",
+			fmt.Sprintf("concurrent %v returned leaving the round mutex locked in %d of %d trials", res.HeldOps, res.Held, res.Trials),
+			hist{Kind: "stress", Stress: res.HeldOps})
+	}
 }
 
 func main() {
+	if ms := os.Getenv("VERIF_ROUNDSM_STRESS"); ms != "" {
+		n, _ := strconv.Atoi(ms)
+		setup()
+		mixes := stressMixes
+		if ops := os.Getenv("VERIF_ROUNDSM_STRESS_OPS"); ops != "" {
+			mixes = [][]string{strings.Split(ops, ",")}
+		}
+		stressChild(time.Duration(n)*time.Millisecond, mixes)
+		return
+	}
 	o := vh.ParseFlags()
 	setup()
 	rep := vh.NewReport("roundsm", "C37", o)
@@ -594,11 +736,9 @@ func main() {
 	var rh hist
 	if o.LoadReplay(&rh) {
 		if rh.Kind == "stress" {
-			trials, lost := stressSetPhase(30 * time.Second)
 			rep.Case("stress", true, rh)
-			if lost > 0 {
-				rep.Violate("C37:phase-lost-update", fmt.Sprintf("phase below Share after concurrent SetPhase(Share)/SetPhase(Verify) in %d of %d trials", lost, trials), rh)
-			}
+			rep.CaseInputs = []interface{}{} // no model cases in a stress replay
+			reportStress(rep, stress(10*time.Second, rh.Stress))
 			finish()
 			return
 		}
@@ -651,14 +791,6 @@ func main() {
 	}
 	rec(nil)
 	rep.Note("exhaustive: all sequences over %d ops up to length %d on the implementation oracle; up to length %d also compared with the model", len(alpha), maxLen, coqLen)
-	{
-		trials, lost := stressSetPhase(time.Duration(o.N(2, 20)) * time.Second)
-		rep.Note("concurrent SetPhase(Share) || SetPhase(Verify) stress: %d trials, %d ended below Share", trials, lost)
-		rep.CountN("setphase-stress-trials", trials)
-		if lost > 0 {
-			rep.Violate("C37:phase-lost-update", fmt.Sprintf("two concurrent SetPhase calls (Share, Verify) both returned and the phase is below Share in %d of %d trials", lost, trials),
-				hist{Kind: "stress"})
-		}
-	}
+	reportStress(rep, stress(time.Duration(o.N(3, 25))*time.Second, nil))
 	finish()
 }
